@@ -44,6 +44,46 @@ def fixed_programs():
                     mp = ("p", [("n", "X%d" % i, "I") for i in range(npar)], None)
                     out.append({"params": mp, "names": [("X%d" % i, "I") for i in range(npar)], "funs": [f], "consts": [], "macros": [], "body": body,
                                 "tag": "rest_%s_%d_%d_%d" % (kind, npar, split, pick)})
+    # binding forms in a &rest tail that rebind a name in scope
+    for lk in ("let", "let*"):
+        for fk in ("defun", "inline"):
+            for gk in ("defun", "inline"):
+                f = {"name": "F", "kind": fk, "params": ("p", [("n", "A", "I"), ("n", "B", "I")], None), "names": [], "body": ("op", "-", [("op", "*", [("var", "A"), ("int", 3)]), ("var", "B")]), "rtype": "I"}
+                tail = ("let", lk, [("Y", ("op", "+", [("var", "Y"), ("int", 1)]))] + ([("Z", ("op", "+", [("var", "Y"), ("int", 5)]))] if lk == "let*" else []),
+                        ("list", [("var", "Z" if lk == "let*" else "Y")]), False)
+                g = {"name": "G", "kind": gk, "params": ("p", [("n", "X", "I"), ("n", "Y", "I")], None), "names": [], "body": ("call", "F", [("var", "X")], tail), "rtype": "I"}
+                mp = ("p", [("n", "P1", "I"), ("n", "P2", "I")], None)
+                out.append({"params": mp, "names": [], "funs": [f, g], "consts": [], "macros": [], "body": ("call", "G", [("var", "P1"), ("var", "P2")], None), "tag": "resttail_%s_%s_%s" % (lk, fk, gk)})
+                # and directly in the main expression
+                tail2 = ("let", lk, [("P2", ("op", "+", [("var", "P2"), ("int", 1)]))], ("list", [("var", "P2")]), False)
+                out.append({"params": mp, "names": [], "funs": [f], "consts": [], "macros": [], "body": ("call", "F", [("var", "P1")], tail2), "tag": "resttail_main_%s_%s" % (lk, fk)})
+    # two-level destructuring of one parameter, every name, inline and not
+    shapes = {
+        "headlist": ("p", [("p", [("n", "A", "I"), ("n", "B", "I")], None), ("n", "C", "I"), ("n", "D", "I")], None),
+        "taillist": ("p", [("n", "A", "I"), ("p", [("n", "B", "I"), ("n", "C", "I")], None), ("n", "D", "I")], None),
+        "both": ("p", [("p", [("n", "A", "I"), ("n", "B", "I")], None), ("p", [("n", "C", "I"), ("n", "D", "I")], None)], None),
+        "dotted": ("p", [("p", [("n", "A", "I"), ("n", "B", "I")], ("n", "C", "L")), ("n", "D", "I")], None),
+    }
+    for sname, sp in shapes.items():
+        for kind in ("inline", "defun"):
+            for pick in ("A", "B", "C", "D"):
+                if sname == "dotted" and pick == "C":
+                    continue
+                f = {"name": "G", "kind": kind, "params": ("p", [("n", "Q", "I"), sp], None), "names": [], "body": ("var", pick), "rtype": "I"}
+                mp = ("p", [("n", "X", "I"), sp], None)
+                # pass the main program's own destructured components back in the same shape
+                def rebuild(p):
+                    if p[0] == "n":
+                        return ("var", p[1]) if p[2] == "I" else ("var", p[1])
+                    items = [rebuild(x) for x in p[1]]
+                    r = ("list", items) if p[2] is None else None
+                    if r is None:
+                        r = rebuild(p[2])
+                        for it in reversed(items):
+                            r = ("cons", it, r)
+                    return r
+                body = ("call", "G", [("var", "X"), rebuild(sp)], None)
+                out.append({"params": mp, "names": [], "funs": [f], "consts": [], "macros": [], "body": body, "tag": "destr_%s_%s_%s" % (sname, kind, pick)})
     return out
 
 
@@ -67,7 +107,7 @@ def compute(ck, n_programs, depth=2, dialects=None, want_syms=False):
         p["tag"] = "generated"
         progs.append(p)
     for i in range(n_programs // 2):
-        g = srcgen.Gen(rng, features={"defun", "inline", "const", "macro", "nested", "strings", "at"}, depth=depth if rng.random() < 0.85 else depth + 1)
+        g = srcgen.Gen(rng, features={"defun", "inline", "const", "macro", "nested", "strings", "at", "qconst"}, depth=depth if rng.random() < 0.85 else depth + 1)
         p = g.program()
         p["tag"] = "generated_classic_surface"
         progs.append(p)
@@ -92,7 +132,7 @@ def compute(ck, n_programs, depth=2, dialects=None, want_syms=False):
                 rec["builds"][(d, opt)] = {"src": src, "known": srcgen.known_class(p, d, opt)}
                 lines.append("compile\t%s\t\t%s" % ("1" if opt else "0", src.encode().hex()))
                 meta.append((i, d, opt))
-    res = vlib.impl(lines, timeout_line=90)
+    res = vlib.impl(lines, timeout_line=45)
     runl = []
     rmeta = []
     for (i, d, opt), r in zip(meta, res):
@@ -141,7 +181,7 @@ def witnesses(ck):
             lines.append("compile\t%s\t\t%s" % ("1" if w["opt"] else "0", w["src"].encode().hex()))
     if not ws:
         return out
-    res = vlib.impl(lines, timeout_line=90)
+    res = vlib.impl(lines, timeout_line=45)
     runl = []
     idx = []
     for (k, w), r in zip(ws, res):
